@@ -1,4 +1,5 @@
 """C15: histogram buckets and summary windows mean what Prometheus says they mean.
+Concurrent drains: specs/PromHist/PromDrain.tla (render / run_upkeep overlapping at the first drain of a series).
 Spec: specs/PromHist/PromHist.tla (H: Histogram::record/record_many, M: Matcher order / DistributionBuilder, S: RollingSummary,
 R: recorder drain + render), scopes and export: MCPromHist.tla, conformance: TracePromHist.tla,
 driver: harness/src/bin/c15.rs (real Histogram, PrometheusBuilder/recorder, Distribution::Summary on a quanta mock clock)."""
@@ -136,7 +137,9 @@ def run(chk):
         "the window property is asserted for non-decreasing sample timestamps as the property states; timestamps going back "
         "(and the recorder's newest-block-first drain of > 64 pending samples) are modelled and conformance-checked, but only the "
         "structural part (young samples only, totals) is asserted for them",
-        "recorder model: one label-free series per family, distinct registered names have distinct sanitised names; single-threaded calls",
+        "recorder model: one label-free series per family, distinct registered names have distinct sanitised names; single-threaded calls "
+        "except the parallel-drain stage (two threads, no recording during the drains, schedule not controlled: PromDrain.tla covers every "
+        "interleaving of the per-series critical sections, the real runs sample them)",
     ]
     # 1. exhaustive model checking, one run per part and scope (two runs at a time, 4 workers each)
     scopes = [(name, spec, gen_cfg(name, spec, **kw)) for name, spec, kw in mc_scopes(thorough)]
@@ -149,6 +152,18 @@ def run(chk):
         if not chk.expect_mc_ok(r, "PromHist/" + name):
             return
         chk.log("TLC %s: %d distinct states (%d generated), depth %d, %.0fs" % (name, r["distinct"], r["generated"], r["depth"], r["wall"]))
+    # concurrent drains (PromDrain.tla): render + run_upkeep, render + render, then a quiescent render, all interleavings of
+    # the per-series critical sections; the check-then-insert variant must be rejected (witness)
+    for cfgname in ("MC_drain_ru", "MC_drain_rr"):
+        r = vlib.tlc_mc(SPEC, "PromDrain", cfgname + ".cfg", workers=4, timeout=900, tag=cfgname)
+        if not chk.expect_mc_ok(r, "PromDrain/" + cfgname, vacuity_exempt={"Check", "Insert"}):
+            return
+        chk.log("TLC %s: %d distinct states (%d generated), depth %d, %.0fs" % (cfgname, r["distinct"], r["generated"], r["depth"], r["wall"]))
+    r = vlib.tlc_mc(SPEC, "PromDrain", "WIT_drain.cfg", workers=4, timeout=900, tag="wit_drain", coverage=False)
+    if r["invariant"] not in ("InvConservation", "InvViewsMonotone", "InvViewsExact", "InvQuiescentExact"):
+        chk.tool_error("witness run: CreateCheckThenInsert = TRUE must violate the drain invariants", r["out"][-3000:])
+    chk.notes["witness_check_then_insert"] = "%s violated after %d states (CreateCheckThenInsert = TRUE)" % (r["invariant"], r["generated"])
+
     # the named deviation is a real violation of the strict property on the model of today's code (witness)
     cfg = gen_cfg("wit_cf15a", "MatchSpec", invs="InvRawMatchStrict", MaxMatchers=1)
     r = vlib.tlc_mc(SPEC, "MCPromHist", cfg, workers=4, timeout=600, tag="wit", coverage=False)
@@ -201,6 +216,9 @@ def run(chk):
     with open(tr) as f:
         head = [json.loads(next(f)) for _ in range(14)]
     chk.cov["samples"].append({"source": "recorded run (fixed cases at the head of every record trace)", "events": head[6:14]})
+    # 5. real-parallel drains of brand-new series: render() || run_upkeep() and render() || render(), then a quiescent render();
+    #    every render must be exact and nothing may decrease (what PromDrain.tla proves for every schedule)
+    par_stage(chk, 2000 if thorough else 300)
     chk.cov["rule"] = ("exhaustive TLC per part: every bound list x sample sequence x batching (H), every override set x name (M), every "
                        "add/snapshot history (S), recorder composition (R); conformance: every TLC-exported case executed on the real code and "
                        "compared with the specification's result by the harness (evaluations = results compared + trace states), a "
@@ -208,6 +226,14 @@ def run(chk):
                        "distinct_nontrivial = distinct cases with a non-default outcome counted by the harness (a bucket count strictly "
                        "between 0 and the total; a name not getting the default distribution; a snapshot holding some but not all samples; "
                        "a render with data)")
+
+
+def par_stage(chk, iters):
+    tr = chk.path("par.ndjson")
+    summ = run_harness(chk, ["par", "--iters", iters, "--series", 24, "--samples", 8], tr, "parallel drains")
+    chk.notes["par"] = summ
+    chk.log("parallel drains: %d iterations x 24 new series, %d renders parsed" % (summ["cases"], summ["renders"]))
+    validate(chk, tr, "concurrent render/upkeep at the first drain of new series")
 
 
 def _cases_from_trace(path):
@@ -266,6 +292,11 @@ def replay(chk, path):
         return run(chk)          # a TLC counterexample of the exhaustive stage: re-run the check
     build(chk)
     cases = _cases_from_trace(path)
+    if any(c["kind"] == "par" for c in cases):
+        par_stage(chk, 600)      # the schedule of a real-parallel run cannot be replayed: run the stage again
+        cases = [c for c in cases if c["kind"] != "par"]
+        if not cases:
+            return
     pf = chk.path("replay_cases.ndjson")
     with open(pf, "w") as f:
         for c in cases:
